@@ -21,7 +21,8 @@ META = {
 MANIFEST = {
     "text": "Every build configuration is checked against the same reference models (so all configurations agree with each other): the harnesses of the functional properties are re-run with the "
             "direct-XOR, generic and x86-64-assembly back ends and with the share triples; the pre-computed per-back-end initial values are proved equal to what the generic path computes; in the "
-            "acquire/release checker build every API family (one-shot and init-use-free sequences) is proved unable to reach abort().",
+            "acquire/release checker build every API family (one-shot and init-use-free sequences) is proved unable to reach abort(), the masked AEADs with the host's real random front end "
+            "(which acquires the permutation for itself) on every share triple.",
     "note": "Trusted: CBMC/cadical, the reference models (KAT-validated). Quick tier = cross-section; thorough tier of C01-C08/C10/C14/C15 repeats their full grids on all five back ends.",
 }
 SOURCES = ["C01", "C02", "C03", "C04", "C05", "C06", "C07", "C14", "C15"]
